@@ -211,8 +211,9 @@ def stepNsec (st : State) (w : List String) : State × String :=
       -- the zone key is class IN: an in-zone record of another class has no signature that verifies
       let clsOK := st.set.all fun r => !nameInZone r.owner sg || r.cls == 1
       (st, authStr (fun _ => none) { signer := sg, q := q, t := t, nx := (rc == "nx"), reqCD := (v == "cd"),
-                                     signed := (v != "nosig"),
-                                     sigsGood := ((v == "good" || v == "cd") && clsOK), nsec := st.set, nsec3 := [] })
+                                     haveDS := (!(v == "insec" || v == "insecnosig") || sg == []),
+                                     signed := (v != "nosig" && v != "insecnosig"),
+                                     sigsGood := ((v == "good" || v == "cd" || v == "insec") && clsOK), nsec := st.set, nsec3 := [] })
     | _, _, _ => (st, "bad-op")
   | _ => (st, "bad-op")
 
@@ -311,8 +312,9 @@ def stepNsec3 (st : State) (w : List String) : State × String :=
     | some sg, some q, some t, some ht =>
       let clsOK := st.h.set.all fun r => !nameInZone r.owner sg || r.cls == 1
       (st, authStr (htFn ht) { signer := sg, q := q, t := t, nx := (rc == "nx"), reqCD := (v == "cd"),
-                               signed := (v != "nosig"),
-                               sigsGood := ((v == "good" || v == "cd") && clsOK), nsec := [], nsec3 := st.h.set })
+                               haveDS := (!(v == "insec" || v == "insecnosig") || sg == []),
+                               signed := (v != "nosig" && v != "insecnosig"),
+                               sigsGood := ((v == "good" || v == "cd" || v == "insec") && clsOK), nsec := [], nsec3 := st.h.set })
     | _, _, _, _ => (st, "bad-op")
   | ["h", "agg", sg, q, t, c, ht] =>
     match parseName sg, parseName q, t.toNat?, c.toNat?, parseHT ht with
